@@ -573,6 +573,33 @@ class CSSStyleSheet(cssutils.stylesheets.StyleSheet):
             rule._parentStyleSheet = None  # detach
             del self._cssRules[index]  # delete from StyleSheet
 
+    def _declaresNamespacesOf(self, rule):
+        """Check (and report if not) that every namespace used by a selector
+        of `rule` or of a rule nested in it at any depth is declared here."""
+        declared = list(self.namespaces.values())
+        rules = [rule]
+        while rules:
+            r = rules.pop()
+            rules.extend(getattr(r, 'cssRules', ()))
+            if r.type != r.STYLE_RULE:
+                continue
+            for selector in r.selectorList:
+                for item in selector.seq:
+                    if (
+                        isinstance(item.value, tuple)
+                        and isinstance(item.value[0], str)
+                        and item.value[0]
+                        and item.value[0] not in declared
+                    ):
+                        self._log.error(
+                            'CSSStyleSheet: Namespace %r used by selector %r is '
+                            'not declared in this sheet.'
+                            % (item.value[0], selector.selectorText),
+                            error=xml.dom.NamespaceErr,
+                        )
+                        return False
+        return True
+
     def insertRule(self, rule, index=None, inOrder=False, _clean=True):  # noqa: C901
         """
         Used to insert a new rule into the style sheet. The new rule now
@@ -682,25 +709,8 @@ class CSSStyleSheet(cssutils.stylesheets.StyleSheet):
             return
 
         # a rule brought from elsewhere may use namespaces not declared here
-        declared = list(self.namespaces.values())
-        for r in [rule] + list(getattr(rule, 'cssRules', ())):
-            if r.type != r.STYLE_RULE:
-                continue
-            for selector in r.selectorList:
-                for item in selector.seq:
-                    if (
-                        isinstance(item.value, tuple)
-                        and isinstance(item.value[0], str)
-                        and item.value[0]
-                        and item.value[0] not in declared
-                    ):
-                        self._log.error(
-                            'CSSStyleSheet: Namespace %r used by selector %r is '
-                            'not declared in this sheet.'
-                            % (item.value[0], selector.selectorText),
-                            error=xml.dom.NamespaceErr,
-                        )
-                        return
+        if not self._declaresNamespacesOf(rule):
+            return
 
         # CHECK HIERARCHY
         # @charset
